@@ -343,6 +343,9 @@ func checkC04(job *Job, res *Result) {
 		"a tear is a truncation at a byte offset (a crash during an append); zero padding is a run of NUL bytes at a command boundary",
 		"reference state for an offset = state of a real server started on the log cut at the preceding command boundary (differential, no hand-written expectation)")
 	kinds := []string{"kinds", "binary", "large", "multiple", "nulblock", "many", "benign"}
+	if job.Shard == 0 && job.Replay == nil {
+		c04LegacyFile(job, res)
+	}
 	thorough := job.Tier == "thorough"
 	caseNo := 0
 	mine := func() bool {
@@ -502,6 +505,59 @@ func checkC04(job *Job, res *Result) {
 					c04Case(job, res, l, fmt.Sprintf("log %s: %d NUL bytes inserted at command boundary %d, tail torn %d bytes into the last command", kind, run, e, tornExtra),
 						content, boundary, boundary+run, map[string]any{"log": kind, "kind": "pad", "boundary": e, "run": run, "torn": tornExtra})
 				}
+			}
+		}
+	}
+}
+
+// c04LegacyFile: a data directory that holds a log in the pre-1.0 format (file
+// "aof") is migrated at start-up; the migrated log must be the one the server
+// then loads and appends to, whatever the log file is called.
+func c04LegacyFile(job *Job, res *Result) {
+	recs := []string{"set fleet t1 point 33 -115", "set fleet t2 point 34 -116", "set fleet t3 string hello"}
+	full := legacyAOF(recs...)
+	for _, name := range []string{"", "data.log"} {
+		for _, cut := range []int{len(full)} { // (a torn legacy file makes the migration refuse to start: fail-safe, not asserted)
+			name, cut := name, cut
+			viol := func(sig, detail string) {
+				res.Violate("C04/legacy-file:"+sig, fmt.Sprintf("%s  [log file name %q, legacy file of %d of %d bytes]", detail, name, cut, len(full)), map[string]any{"legacy": name, "cut": cut})
+			}
+			x := runExec(job, freezeAllBut(), func(x *Exec) {
+				dir := x.dir + "/L"
+				os.MkdirAll(dir, 0700)
+				os.WriteFile(filepath.Join(dir, "aof"), full[:cut], 0600)
+				opt := func(o *Options) {
+					if name != "" {
+						o.AppendFileName = filepath.Join(dir, name)
+					}
+				}
+				want := "t1 t2 t3"
+				if cut < len(full) {
+					want = "t1 t2"
+				}
+				for life := 1; life <= 2; life++ {
+					in, err := x.TryStart(fmt.Sprintf("L%d", life), dir, 9000+life, opt)
+					if err != nil {
+						viol("start-fails", fmt.Sprintf("start %d: %v", life, err))
+						return
+					}
+					c := x.Dial(in.Addr)
+					ids, _ := idsOf(c.Do("SCAN", "fleet", "IDS"))
+					if got := strings.Join(ids, " "); got != want {
+						viol("data-lost", fmt.Sprintf("start %d serves fleet = [%s], the legacy file holds [%s]", life, got, want))
+					}
+					if life == 1 {
+						c.Do("SET", "fleet", "t9", "POINT", "1", "1")
+						want += " t9"
+					}
+					c.Close()
+					in.Stop()
+					res.Evaluations++
+					res.DistinctS(fmt.Sprint("legacy", name, cut, life))
+				}
+			})
+			if x.Err != "" || len(x.Crashes) > 0 {
+				viol("hang-or-crash", fmt.Sprint(x.Err, x.Crashes))
 			}
 		}
 	}
